@@ -75,6 +75,22 @@ Proof.
       * intros s1 e1 t1 E1. injection E1 as <- <- <-. lia.
 Qed.
 
+(* every byte range lies in the file (start >= 1, possibly empty: end = start - 1) *)
+Definition range_in (file : list N) (r : N * N) : Prop := 1 <= fst r /\ fst r <= snd r + 1 /\ snd r + 1 <= lenN file.
+
+Lemma add_range_in file rs s sz : 1 <= s -> s + sz <= lenN file -> s + sz < 18446744073709551616 ->
+  (forall s0 e0 t, rs = (s0, e0) :: t -> s0 <= e0 + 1 /\ e0 + 1 < 18446744073709551616) ->
+  Forall (range_in file) rs -> Forall (range_in file) (add_range rs s (s + sz - 1)).
+Proof.
+  intros Hs Hf Hb Hlast Hall. unfold add_range. destruct rs as [|[s0 e0] t].
+  - constructor; [|constructor]. unfold range_in. cbn [fst snd]. lia.
+  - inversion Hall as [|? ? H0 Ht]; subst. unfold range_in in H0. cbn [fst snd] in H0.
+    destruct (Hlast s0 e0 t eq_refl) as [_ Hl]. rewrite u64_small by lia.
+    destruct (e0 + 1 =? s) eqn:E.
+    + constructor; [|exact Ht]. unfold range_in. cbn [fst snd]. lia.
+    + constructor; [|exact Hall]. unfold range_in. cbn [fst snd]. lia.
+Qed.
+
 (* ---------- sizes ---------- *)
 Lemma total_size_split tb a b n : 1 <= a -> a <= b + 1 -> b <= n ->
   S_total_size tb a n = S_total_size tb a b + S_total_size tb (b + 1) n.
@@ -260,11 +276,13 @@ Lemma fill_loop_inv file B : 4611686018427387904 + B < 18446744073709551616 ->
   (first <> 0 -> cur = first + lenN (out_bytes file (rev rs)) /\ first < 4611686018427387904) ->
   (forall s0 e0 t, rs = (s0, e0) :: t -> s0 <= e0 + 1 /\ e0 + 1 < 18446744073709551616) ->
   lenN (out_bytes file (rev rs)) + pot ts <= B ->
+  Forall (range_in file) rs ->
   fill_loop fuel ts rs first cur = Ok (ts', ranges, first') ->
   Forall (static_ok file) ts' /\ Forall (dyn_ok file (out_bytes file ranges) first') ts' /\
-  Forall (fun t => ts_next t = ts_last_chunk t + 1) ts' /\ map static ts' = map static ts.
+  Forall (fun t => ts_next t = ts_last_chunk t + 1) ts' /\ map static ts' = map static ts /\
+  Forall (range_in file) ranges /\ first' < 4611686018427387904 /\ lenN (out_bytes file ranges) <= B.
 Proof.
-  intros HB. induction fuel as [|fuel IH]; intros ts rs first cur ts' ranges first' Hst Hdy Hf0 Hf1 Hlast Hpot Hrun;
+  intros HB. induction fuel as [|fuel IH]; intros ts rs first cur ts' ranges first' Hst Hdy Hf0 Hf1 Hlast Hpot Hrin Hrun;
     [discriminate|].
   cbn [fill_loop] in Hrun.
   assert (Hn1 : Forall (fun t => 1 <= ts_next t) ts).
@@ -274,8 +292,12 @@ Proof.
   destruct Hcase as [Hsame|[j [t [o [Hj [Hel [Ho [Hb' Hlt]]]]]]]].
   - (* no track has a chunk left *)
     injection Hsame as -> -> ->. cbn [N.eqb] in Hrun. injection Hrun as <- <- <-.
-    split; [exact Hst|]. split; [exact Hdy|]. split; [|reflexivity].
-    rewrite Forall_forall in *. intros t Hin.
+    split; [exact Hst|]. split; [exact Hdy|].
+    assert (Hextra : Forall (range_in file) (rev rs) /\ first < 4611686018427387904 /\ lenN (out_bytes file (rev rs)) <= B).
+    { split; [apply Forall_rev; exact Hrin|]. split; [|lia].
+      destruct (N.eq_dec first 0) as [->|Hne]; [lia|]. destruct (Hf1 Hne). assumption. }
+    split; [|split; [reflexivity|exact Hextra]].
+    clear Hextra. rewrite Forall_forall in *. intros t Hin.
     destruct (In_nth_error _ _ Hin) as [n Hn].
     assert (Hnt : nthN ts (N.of_nat n) = Some t).
     { clear - Hn. revert n Hn. induction ts as [|x r IHr]; intros n Hn; [destruct n; discriminate|].
@@ -344,8 +366,8 @@ Proof.
     rewrite (u64_small (cur1 + sz)) in Hrun by lia.
     fold t2 in Hrun.
     apply (IH _ _ _ _ _ _ _) in Hrun.
-    + destruct Hrun as [R1 [R2 [R3 R4]]]. split; [exact R1|]. split; [exact R2|]. split; [exact R3|].
-      rewrite R4. apply map_static_upd. intros x. reflexivity.
+    + destruct Hrun as [R1 [R2 [R3 [R4 R5]]]]. split; [exact R1|]. split; [exact R2|]. split; [exact R3|].
+      split; [|exact R5]. rewrite R4. apply map_static_upd. intros x. reflexivity.
     + (* static *)
       apply (Forall_upd_ts (static_ok file) (static_ok file) ts j _ t Hst Hj); [auto|].
       unfold static_ok. cbn [ts_tb ts_id ts_last_chunk]. split; [exact Hc|]. split; [exact Hid|]. split; [exact Hlc|]. split; [exact Hoff|exact Hfile].
@@ -378,6 +400,7 @@ Proof.
       pose proof (pot_upd_ts ts j (fun t => mkTS (ts_id t) (ts_tb t) (ts_last_sample t) (ts_last_chunk t)
                                                  (u32 (ts_next t + 1)) (ts_offsets t ++ [cur1])) t Hj) as Hpu.
       cbn beta in Hpu. fold t2 in Hpu. lia.
+    + apply add_range_in; try assumption; lia.
 Qed.
 
 (* ---------- the layout theorem ---------- *)
@@ -392,7 +415,7 @@ Lemma layout_correct file ts0 fuel ts' ranges first' :
                                         chunk_placed file (out_bytes file ranges) first' t c no) ts'.
 Proof.
   intros Hst Hinit HB Hrun.
-  destruct (fill_loop_inv file (pot ts0) HB fuel ts0 [] 0 0 ts' ranges first' Hst) as [R1 [R2 [R3 R4]]].
+  destruct (fill_loop_inv file (pot ts0) HB fuel ts0 [] 0 0 ts' ranges first' Hst) as [R1 [R2 [R3 [R4 _]]]].
   - rewrite Forall_forall in *. intros t Hin. destruct (Hinit t Hin) as [A B]. split; [lia|]. split.
     + rewrite B, lenN_nil. lia.
     + intros i no Hi. rewrite B in Hi. discriminate.
@@ -400,12 +423,34 @@ Proof.
   - intros E. lia.
   - intros s0 e0 t E. discriminate.
   - cbn. lia.
+  - constructor.
   - exact Hrun.
   - split; [exact R4|]. rewrite Forall_forall in *. intros t Hin.
     destruct (R2 t Hin) as [A [B C]]. pose proof (R3 t Hin) as D. cbn beta in D.
     split; [apply R1, Hin|]. split; [exact D|]. split; [lia|].
     intros c Hc. destruct (nthN_lt_Some (ts_offsets t) (c - 1)) as [no Hno]; [lia|].
     exists no. split; [exact Hno|]. replace c with (c - 1 + 1) at 1 by lia. apply C, Hno.
+Qed.
+
+(* the byte ranges lie in the file, firstOffset < 2^62 and the new payload is no longer than the sample bytes of the tracks *)
+Lemma layout_ranges file ts0 fuel ts' ranges first' :
+  Forall (static_ok file) ts0 -> Forall (fun t => ts_next t = 1 /\ ts_offsets t = []) ts0 ->
+  4611686018427387904 + pot ts0 < 18446744073709551616 ->
+  fill_loop fuel ts0 [] 0 0 = Ok (ts', ranges, first') ->
+  Forall (range_in file) ranges /\ first' < 4611686018427387904 /\ lenN (out_bytes file ranges) <= pot ts0.
+Proof.
+  intros Hst Hinit HB Hrun.
+  destruct (fill_loop_inv file (pot ts0) HB fuel ts0 [] 0 0 ts' ranges first' Hst) as [_ [_ [_ [_ R5]]]].
+  - rewrite Forall_forall in *. intros t Hin. destruct (Hinit t Hin) as [A B]. split; [lia|]. split.
+    + rewrite B, lenN_nil. lia.
+    + intros i no Hi. rewrite B in Hi. discriminate.
+  - intros _. split; [reflexivity|]. eapply Forall_impl; [|exact Hinit]. intros t [_ A]. exact A.
+  - intros E. lia.
+  - intros s0 e0 t E. discriminate.
+  - cbn. lia.
+  - constructor.
+  - exact Hrun.
+  - exact R5.
 Qed.
 
 Lemma sublist_sublist {A} (l : list A) s n a b : a + b <= n -> sublist (sublist l s n) a b = sublist l (s + a) b.
